@@ -112,14 +112,27 @@ def chosen_process_correspondence(ctx):
         base.tensors[0] = base.tensors[0] * 0.8
         v = dense.mps_dense(base)
         par = AnalogSimParams([Observable("z", 0)], elapsed_time=0.1, dt=0.1, show_progress=False, threshold=1e-14)
+        strengths = [q["strength"] for q in nm.processes]
         for k, p in enumerate(nm.processes):
-            rng = lottery.ForcedRng(["J", k])
+            def pick(n_, pv, k=k):
+                # the outcome "process k": entry k of a vector with one entry per listed process; if the vector only lists the
+                # processes with positive weight (in order), the entry of process k among those
+                if len(pv) == len(strengths):
+                    return k
+                live = [j for j, g_ in enumerate(strengths) if g_ > 0]
+                return live.index(k) if k in live and len(pv) == len(live) else k
+
+            if strengths[k] == 0:
+                continue
+            rng = lottery.ForcedRng(["J", pick])
             try:
                 out = stochastic_process(copy.deepcopy(base), nm, 0.1, par, rng=rng)
             except Exception as e:  # noqa: BLE001
                 ctx.mismatch("stochastic_process raised", {"L": L, "processes": [(q["name"], q["sites"]) for q in nm.processes]}, repr(e), "-")
                 continue
-            pk = rng.log[-1][2][k] if rng.log and rng.log[-1][0] == "choice" else None
+            if rng.log and rng.log[-1][0] == "choice" and len(rng.log[-1][2]) != len(nm.processes):
+                ctx.mismatch("probability vector handed to Generator.choice vs NoiseAttrib.probabilities (one entry per listed process)",
+                             {"L": L, "processes": [(q["name"], q["sites"], q["strength"]) for q in nm.processes]}, len(rng.log[-1][2]), len(nm.processes), key="choice-vector")
             lv = lottery.dense_op(p, L) @ v
             nrm = np.linalg.norm(lv)
             ctx.case(nontrivial_key=("chosen", i, k), validated=True)
@@ -128,7 +141,7 @@ def chosen_process_correspondence(ctx):
                 continue
             d = dense.up_to_phase(dense.mps_dense(out), lv / nrm)
             if d > 1e-7:
-                ctx.violation("chosen-process", f"with the drawn index {k} stochastic_process did not apply processes[{k}] = "
+                ctx.violation("chosen-process", f"when the lottery draws process {k} stochastic_process did not apply processes[{k}] = "
                               f"{p['name']}@{p['sites']} (distance {d:.2e}); list {[(q['name'], q['sites']) for q in nm.processes]}",
                               {"oracle": "chosen", "L": L, "procs": procs, "k": k})
 
